@@ -1,12 +1,12 @@
 #!/venv/bin/python
-"""Developer tool (not a check): import the confirmed seeded changes of round-4 agents from /tmp/wt/S5-<P>.out into
+"""Developer tool (not a check): import the confirmed seeded changes of round-4 agents from /tmp/wt/S6-<P>.out into
 /verif/seeded/<P>-<n>/ (patch.diff, demo.py, meta.json).  A change is imported only if its verify<k>.txt transcript shows
 the pinned suite passing with the patch, the demonstration failing with it and passing without it."""
 import glob, json, os, re, shutil, sys
 
 VERIF = '/verif'
 for P in sys.argv[1:]:
-    out = f'/tmp/wt/S5-{P}.out'
+    out = f'/tmp/wt/S6-{P}.out'
     have = [int(os.path.basename(d).split('-')[1]) for d in glob.glob(f'{VERIF}/seeded/{P}-*')]
     n = max(have, default=0)
     for k in (1, 2, 3):
@@ -33,7 +33,7 @@ for P in sys.argv[1:]:
         if os.path.exists(f'{out}/run{k}.sh'):
             shutil.copy(f'{out}/run{k}.sh', f'{d}/run.sh')
         meta['property'] = P
-        meta['origin'] = 'independent sub-agent (round 5) given only the property record and a scratch worktree'
+        meta['origin'] = 'independent sub-agent (round 6) given only the property record and a scratch worktree'
         meta['confirmed_by_me'] = {'how': 'bin/verify_seed.sh protocol in the scratch worktree: git apply, pinned suite, demonstration with and without the patch',
                                    'transcript': tr}
         meta['detected_by'] = {}
